@@ -300,6 +300,14 @@ impl Band {
     pub fn admits_trunc_within(&self, limit: i128) -> bool {
         self.lo.lt_int(limit + 1) && self.hi.gt_int(-(limit + 1))
     }
+    /// Is there a q in the band whose nearest integer (either neighbour on a tie) is >= x ?
+    pub fn admits_nearest_ge(&self, x: i128) -> bool {
+        self.hi.add(&self.hi).ge_int(2 * x - 1)
+    }
+    /// Is there a q in the band whose nearest integer (either neighbour on a tie) is <= x ?
+    pub fn admits_nearest_le(&self, x: i128) -> bool {
+        self.lo.add(&self.lo).le_int(2 * x + 1)
+    }
     /// Is there a q in the band whose rounding to the nearest integer (either neighbour on an
     /// exact tie) is r ?   <=>  [r - 1/2, r + 1/2] meets [lo, hi]
     pub fn admits_nearest(&self, r: i128) -> bool {
@@ -307,6 +315,42 @@ impl Band {
         let two_lo = self.lo.add(&self.lo);
         two_hi.ge_int(2 * r - 1) && two_lo.le_int(2 * r + 1)
     }
+}
+
+/// Is `res` a double nearest to the real number `p` (round-to-nearest, either on a tie)?
+pub fn is_nearest_double(res: f64, p: &Rat) -> bool {
+    let parts = match decode(res) {
+        Some(x) => x,
+        None => return false,
+    };
+    let r = Rat::from_parts(parts);
+    let dist = |a: &Rat| -> Rat { let d = a.add(&p.negate()); d.abs() };
+    let d0 = dist(&r);
+    let bits = res.to_bits();
+    // neighbours by bit pattern (handles both signs; +0/-0 both decode to zero)
+    let mut nbs: Vec<f64> = Vec::new();
+    if res == 0.0 {
+        nbs.push(f64::from_bits(1));
+        nbs.push(-f64::from_bits(1));
+    } else {
+        nbs.push(f64::from_bits(bits + 1));
+        nbs.push(f64::from_bits(bits - 1));
+    }
+    for nb in nbs {
+        if let Some(pn) = decode(nb) {
+            let dn = dist(&Rat::from_parts(pn));
+            if dn.cmp(&d0) == Ordering::Less {
+                return false;
+            }
+        }
+    }
+    true
+}
+
+/// Is the real number p exactly representable as a double?  (p given as an exact rational whose
+/// denominator is a power of two.)
+pub fn dyadic_fits_f64(num: &Big) -> bool {
+    num.is_zero() || num.bits() - num.trailing_zeros() <= 53
 }
 
 /// |v| >= 2^1024 ?  (a product / quotient of that size is infinite in double precision)
@@ -354,6 +398,17 @@ mod tests {
         assert!(b.admits_trunc(-3) && !b.admits_trunc(-4));
         let s = q.add(&n);
         assert!(s.is_zero());
+    }
+
+    #[test]
+    fn nearest_double() {
+        let third = Rat::from_int(1).div(&Rat::from_int(3));
+        assert!(is_nearest_double(1.0 / 3.0, &third));
+        assert!(!is_nearest_double(f64::from_bits((1.0f64 / 3.0).to_bits() + 1), &third));
+        assert!(is_nearest_double(2.0, &Rat::from_int(2)));
+        assert!(is_nearest_double(-0.5, &Rat::from_int(-1).div(&Rat::from_int(2))));
+        let b = Band { lo: Rat::from_int(7).div(&Rat::from_int(2)), hi: Rat::from_int(7).div(&Rat::from_int(2)) };
+        assert!(b.admits_nearest_ge(4) && !b.admits_nearest_ge(5) && b.admits_nearest_le(3) && !b.admits_nearest_le(2));
     }
 
     #[test]
